@@ -16,7 +16,7 @@ def plan(tier):
                  (ht, ["--tier", tier, "mode=schedules", "--deadline", dl], NCPU)],
         "rule": "inputs: every tuple of k<=3 sorted sequences over 3 keys with lengths 0..2 (quick) / 0..3 (thorough), every 4-tuple over 2 keys with "
                 "lengths 0..2, dominant-sequence tuples (thorough: all pairs of a length-4 and a length>=3 sequence), x every length 0..total x threads "
-                "{1,2,3,5} / {1,2,3,4,5,8,32} x {exact, sampling(oversampling 1,2,10)} x stable/unstable x entry point/algorithm pairs, each executed on the "
+                "{1,2,3,5} / {1,2,3,5,32} x {exact, sampling(oversampling 1,2,10)} x stable/unstable x entry point/algorithm pairs, each executed on the "
                 "real code on the deterministic default schedule with a write-counting target (ASan build) and once more in a TSan build (the threads do "
                 "not synchronise between fork and join, so one execution per input decides race freedom); schedules: 5 inputs x 2 splittings x stable/unstable "
                 "under every interleaving within the bound. states = distinct cases + distinct schedules",
